@@ -405,10 +405,13 @@ def fix_starred_imports(source: str) -> str:
 
     # A starred import also provides the names that shadow a builtin, or that some
     # inner scope binds as well: these are referenced, but not undefined.
+    # They are traced through the starred imports alone: a binding in some function
+    # of this file says nothing about the name at module level.
+    star_source = "".join(f"{core.unparse(node)}\n" for node in template)
     for name in sorted(_get_referenced_names(root) - undefined_names):
-        trace_result = trace_origin(name, source)
-        if trace_result and core.match_template(trace_result.ast, template):
-            starred_import_name_mapping[trace_result.ast].add(name)
+        trace_result = trace_origin(name, star_source)
+        if trace_result and isinstance(trace_result.ast, ast.ImportFrom):
+            starred_import_name_mapping[template[trace_result.ast.lineno - 1]].add(name)
 
     for node, names in starred_import_name_mapping.items():
         if names:
